@@ -159,7 +159,7 @@ func genDyn(e *env, rng *gen.Rng) {
 	// every op sequence up to maxLen over the alphabet, always closed by a draw
 	maxLen := 3
 	if r.Thorough {
-		maxLen = 5
+		maxLen = 4
 	}
 	patterns := [][]int{{}, {1}, {3}, {1, 1}, {2, 1}, {1, 2, 3}, {3, 1, 2}, {1, 1, 1, 1}, {2, 3, 1, 2}}
 	for _, hs := range patterns {
@@ -187,6 +187,11 @@ func genDyn(e *env, rng *gen.Rng) {
 					}
 				}
 				rec(nil, maxLen)
+				if r.Thorough && len(hs) <= 2 && H <= 2 {
+					// length-5 histories on the smallest lists
+					alpha = alpha[:6]
+					rec(nil, 5)
+				}
 			}
 		}
 	}
